@@ -240,7 +240,8 @@ class MatrixDFTExecutor:
         if not isinstance(shift, Iterable):
             shift = (shift, shift)
 
-        return (Q, samples_in, samples_out, shift, fwd)
+        # the bases are built in the configured precision, so it is part of their identity
+        return (Q, samples_in, samples_out, shift, fwd, config.precision)
 
     def dft2(self, ary, Q, samples_out, shift=(0, 0)):
         """Compute the two dimensional Discrete Fourier Transform of a matrix.
@@ -360,7 +361,7 @@ class MatrixDFTExecutor:
         """Set up the basis matricies for given sampling parameters."""
         # broadcast sampling and shifts
 
-        Q, shp, samples, shift, fwd = key
+        Q, shp, samples, shift, fwd, precision = key
 
         Qn, Qm = Q
         # conversion here to Soummer's notation
@@ -376,7 +377,7 @@ class MatrixDFTExecutor:
         except KeyError:
             # X is the second dimension in C (numpy) array ordering convention
 
-            X, Y, U, V = (fftrange(n, dtype=config.precision) for n in (Ma, Na, Mb, Nb))
+            X, Y, U, V = (fftrange(n, dtype=precision) for n in (Ma, Na, Mb, Nb))
 
             # do not even perform an op if shift is nothing
             if shift[1] != 0:
